@@ -18,6 +18,9 @@ import (
 
 const modPath = "github.com/maruel/panicparse/v2"
 
+// noRenameNormalisation: set when the vocabulary itself is being listed.
+var noRenameNormalisation bool
+
 // Loaded is the type-checked and SSA-built program.
 type Loaded struct {
 	Repo  string
@@ -27,6 +30,8 @@ type Loaded struct {
 	Prog  *ssa.Program
 	SSA   map[string]*ssa.Package
 	Scope []string // import paths of the packages in scope
+	// Renames normalised away before analysis (current name -> vocabulary name).
+	Renames []string
 }
 
 func shortStack() string {
@@ -66,26 +71,51 @@ func Load(repo, goos, goarch string) (*Loaded, error) {
 		Env:   env,
 		Tests: false,
 	}
-	pkgs, err := packages.Load(cfg, "./...")
-	if err != nil {
-		return nil, err
-	}
-	if len(pkgs) == 0 {
-		return nil, fmt.Errorf("no packages loaded from %s", repo)
-	}
-	L := &Loaded{Repo: repo, Cfg: cfgName, Pkgs: map[string]*packages.Package{}, SSA: map[string]*ssa.Package{}}
-	var errs []string
-	packages.Visit(pkgs, nil, func(p *packages.Package) {
-		if strings.HasPrefix(p.PkgPath, modPath) {
-			for _, e := range p.Errors {
-				errs = append(errs, e.Error())
-			}
+	var pkgs []*packages.Package
+	var L *Loaded
+	var renamed []string
+	ref := readVocab(verifDir)
+	// up to three loads: as found; with renamed types spelled as in the
+	// vocabulary; with renamed functions, fields, variables and constants too
+	for round := 0; round < 3; round++ {
+		var err error
+		pkgs, err = packages.Load(cfg, "./...")
+		if err != nil {
+			return nil, err
 		}
-		L.Pkgs[p.PkgPath] = p
-	})
-	if len(errs) != 0 {
-		return nil, fmt.Errorf("type-check errors: %s", strings.Join(errs, "; "))
+		if len(pkgs) == 0 {
+			return nil, fmt.Errorf("no packages loaded from %s", repo)
+		}
+		L = &Loaded{Repo: repo, Cfg: cfgName, Pkgs: map[string]*packages.Package{}, SSA: map[string]*ssa.Package{}}
+		var errs []string
+		packages.Visit(pkgs, nil, func(p *packages.Package) {
+			if strings.HasPrefix(p.PkgPath, modPath) {
+				for _, e := range p.Errors {
+					errs = append(errs, e.Error())
+				}
+			}
+			L.Pkgs[p.PkgPath] = p
+		})
+		if len(errs) != 0 {
+			return nil, fmt.Errorf("type-check errors: %s", strings.Join(errs, "; "))
+		}
+		if noRenameNormalisation {
+			break
+		}
+		rs := detectRenames(ref, L.Pkgs, round == 0)
+		if len(rs) == 0 && round == 0 {
+			rs = detectRenames(ref, L.Pkgs, false)
+			round = 1
+		}
+		if len(rs) == 0 {
+			break
+		}
+		for _, r := range rs {
+			renamed = append(renamed, r.kind+" "+r.from+" -> "+r.to)
+		}
+		cfg.Overlay = overlayFor(L.Pkgs, rs, cfg.Overlay)
 	}
+	L.Renames = renamed
 	L.Fset = pkgs[0].Fset
 	prog, _ := ssautil.AllPackages(pkgs, ssa.InstantiateGenerics)
 	prog.Build()
